@@ -7,19 +7,30 @@ import itertools
 
 PROPERTY = "C02"
 LEVEL = "proof"
-LEAN_MODULES = ["Exetera.Props.C02", "Exetera.Props.C04"]
+LEAN_MODULES = ["Exetera.Props.C02", "Exetera.Props.C04", "Exetera.Witness.C02"]
 EXHAUSTIVE = {"quick": False, "thorough": True}
 CASE_TIMEOUT = 30
 TECHNIQUE = "Lean 4 theorems (merge = relational join as a corollary of the streamed-join and column-mapping theorems + dispatch model) + API-level differential run of DataFrame.merge with injected chunk sizes"
-LEVEL_TEXT = ("Proof on the model: for every mode and every truthful hint combination the modelled merge (dispatch, map generation, "
-              "per-column mapping, naming) yields exactly the rows of the relational join, all destination columns of equal length, keys "
-              "non-decreasing on the ordered path; hints do not change the row multiset. pandas.merge (unordered path) is a parameter "
-              "assumed to return the relational join.")
-LEVEL_NOTE = ("Trusted: Lean kernel; the hand-written merge model (validated against the real DataFrame.merge on every enumerated frame pair x "
-              "mode x truthful hints x injected chunk size, whole destination frame compared); pandas.merge, h5py.")
+LEVEL_TEXT = ("Proof on the model, whole frame (merge_frame_correct_partial, hints_irrelevant_partial, never_raises_on_truthful_hints_partial over "
+              "`merge pandas i cs vf fuel`; partial only w.r.t. NC02c): "
+              "for left/right/inner/outer, every truthful hint combination, all well-formed frames (single/compound keys, field subsets, name "
+              "clashes, every field type incl. indexed strings) and every chunk size >= 1 the modelled merge passes its validators, succeeds, and "
+              "its destination is the table of a row list that is a permutation of the relational join (each mapped field under its documented "
+              "name = the selected source rows, empty value where unmatched; all destination columns of equal length); on the ordered path the "
+              "rows are the relational join in key order; the hinted and the hint-free call give permuted row lists; a clash among destination "
+              "names is rejected up front whatever the hints (name_clash_rejected, fix NC02b). pandas.merge (unordered path) is a parameter "
+              "assumed to return a permutation of the relational join.")
+LEVEL_NOTE = ("The three whole-frame theorems are _partial for ONE reason, open finding NC02c: with both ordered hints an indexed-string entry "
+              "longer than chunksize*value_factor (2^23 bytes by default) makes merge raise, the hint-free call succeeds; they carry that bound. "
+              "Hypotheses of the theorems (WellFormed/TruthfulHints/PandasOK in Props/C02.lean): destination names pairwise distinct incl. the "
+              "four names merge reserves (the code's own guard since fix NC02b); indexed-string entries fit the streamed value buffer cs*vf "
+              "(C04's regime); < 2^62 rows per side; fuel >= |lk|+|rk|+2|join|+1; lk/rk are an order embedding of the key tuples (tied to the "
+              "key columns by the harness, not by a theorem). Trusted: Lean kernel; the hand-written merge model (validated against the real "
+              "DataFrame.merge on every enumerated frame pair x mode x truthful hints x injected chunk size, whole destination frame compared); "
+              "pandas.merge (the permutation assumption is checked on every case that uses it), h5py.")
 RULE = ("frames: key column(s) over a 3-value alphabet (sorted when an ordered hint is given, duplicate-free when a unique hint is given), "
         "payload columns of every field type incl. a name clash; exhaustive over key columns of length <= 3 (quick: seeded sample of them) x "
-        "4 modes x truthful hint combinations x chunk sizes {1,2,3,1<<20} — every such case that takes the ordered path (thorough), a seeded sample of 5000 of those that take the pandas path; plus seeded random frames up to 40 rows; plus a malformed stream (every validation error). Non-trivial = at least one "
+        "4 modes x truthful hint combinations x chunk sizes {1,2,3,1<<20} — every such case that takes the ordered path (thorough), a seeded sample of 5000 of those that take the pandas path; plus seeded random frames up to 40 rows; plus a malformed stream (every validation error); plus destination-name clashes (a source field named _left_map/_right_map/valid_l/valid_r or a duplicate suffixed name, mapped and unmapped, x modes x hints); plus long indexed-string entries around the injected value buffer (NC02c). Non-trivial = at least one "
         "matched and one unmatched row or a duplicate key; distinct = distinct case dict.")
 ASSUMPTIONS = ["pandas.merge returns the relational join with NaN-marked misses (unordered path)", "h5py stores arrays faithfully"]
 TRUSTED = ["Lean 4.33 kernel", "axioms propext/Classical.choice/Quot.sound only", "checks/harness/c02.py"]
@@ -54,11 +65,13 @@ def hint_combos(lk, rk):
     return out
 
 
-def mk(lk, rk, how, hints, cs, n, compound=False, subset=False, kdtype="int32", mal=None):
+def mk(lk, rk, how, hints, cs, n, compound=False, subset=False, kdtype="int32", mal=None, extra=None):
     c = {"op": "merge", "lk": lk, "rk": rk, "how": how, "hints": hints, "cs": cs, "compound": compound,
          "subset": subset, "kdtype": kdtype, "_n": n}
     if mal:
         c["mal"] = mal
+    if extra:
+        c["extra"] = list(extra)        # [side, name]: one more int32 column on that side
     return c
 
 
@@ -77,10 +90,61 @@ def malformed_cases():
     return out
 
 
+RESERVED = ["_left_map", "_right_map", "valid_l", "valid_r"]
+
+
+def clash_cases():
+    """NC02b: a source field named like one of the fields merge adds itself, or two mapped fields with the same destination
+    name — with and without the ordered hints, every mode; plus the same frames with a field subset that leaves the
+    offending field unmapped (no clash: must succeed)"""
+    out = []
+    n = 800000
+    for side, name in [("l", r) for r in RESERVED] + [("r", r) for r in RESERVED] + [("l", "num_l"), ("r", "num_r")]:
+        for how in HOWS:
+            for hints in ([None, None, None, None], [True, None, True, None], [True, None, True, True]):
+                for subset in (False, True):
+                    n += 1
+                    out.append(mk([0, 1, 1, 3], [1, 2, 3], how, hints, 2, n, subset=subset, extra=(side, name)))
+    return out
+
+
+VALUE_FACTOR = 16      # what set_chunks injects next to a small chunk size
+
+
+def long_entry_cases():
+    """NC02c: an indexed-string column whose entries (18+ bytes) exceed the streamed value buffer cs * VALUE_FACTOR for
+    cs = 1 and fit it for cs >= 2 — with and without the ordered hints"""
+    out = []
+    n = 700000
+    for side in ("l", "r"):
+        for how in HOWS:
+            for hints in ([None, None, None, None], [True, None, True, None], [True, True, True, None]):
+                for cs in (1, 2, 1 << 20):
+                    n += 1
+                    out.append(mk([0, 1, 3], [1, 1, 2], how, hints, cs, n, extra=(side, "big")))
+    return out
+
+
+def long_entry_overflows(case):
+    """does this case take the ordered path with an entry that does not fit the injected value buffer?"""
+    ex = case.get("extra")
+    if not (ex and ex[1].startswith("big") and is_ordered_path(case)) or case["cs"] >= (1 << 20) or case.get("subset"):
+        return False
+    n = len(case["lk"] if ex[0] == "l" else case["rk"])
+    maps = {"left": ("r",), "right": ("l",), "inner": ("l", "r")}[case["how"]]      # sides that go through a map field
+    uniq = (case["hints"][3] if case["how"] == "left" else case["hints"][1]) if case["how"] != "inner" else None
+    mapped = ex[0] in maps or not uniq      # the driving side is copied (no stream) only when the other side is hinted unique
+    return bool(mapped and n and 18 + n - 1 > case["cs"] * VALUE_FACTOR)
+
+
 def gen_cases(tier, rng):
     from checks import corpus
     cases = list(corpus.load("C02"))
     cases.extend(malformed_cases())
+    cl = clash_cases()
+    cases.extend(cl if tier != "quick" else rng.sample(cl, 60))
+    le = long_entry_cases()
+    cases.extend(le if tier != "quick" else rng.sample(le, 30))
     n = 0
     allc = []
     seqs = all_seqs(3, 3)
@@ -146,6 +210,10 @@ RIGHT_COLS = ["k", "num", "s", "f", "t", "ronly"]
 
 def col_value(side, name, i):
     p = payload(side, i)
+    if name.startswith("big"):
+        return "y" * (18 + i)                                  # the long indexed-string `extra` column (NC02c): 18+ bytes
+    if name not in p and name not in ("lonly", "ronly"):
+        return 5 * i + 2                                       # the `extra` column of a case (int32, never 0)
     if name == "lonly":
         return 7 * i + 3
     if name == "ronly":
@@ -154,7 +222,7 @@ def col_value(side, name, i):
 
 
 def empty_of(name):
-    return {"num": 0, "s": "", "f": b"", "c": 0, "t": 0.0, "flag": False, "lonly": 0, "ronly": "", "k": None, "k2": 0}[name]
+    return {"num": 0, "s": "", "f": b"", "c": 0, "t": 0.0, "flag": False, "lonly": 0, "ronly": "", "k": None, "k2": 0}.get(name, "" if name.startswith("big") else 0)
 
 
 def key_tuple(case, side, i):
@@ -167,6 +235,8 @@ def fields_of(case):
     if case.get("compound"):
         lf.insert(1, "k2")
         rf.insert(1, "k2")
+    if case.get("extra"):
+        (lf if case["extra"][0] == "l" else rf).append(case["extra"][1])
     if case.get("subset"):
         return lf, rf, ["num", "s", "lonly"], ["num", "f", "ronly"]
     return lf, rf, None, None
@@ -237,7 +307,7 @@ def build(e, df, side, case):
         elif name in ("num", "lonly"):
             m = n + 1 if (name == "lonly" and case.get("mal") == "lenmix") else n
             df.create_numeric(name, "int32").data.write(np.array([col_value(side, name, i) for i in range(m)], dtype="int32"))
-        elif name in ("s", "ronly"):
+        elif name in ("s", "ronly") or name.startswith("big"):
             df.create_indexed_string(name).data.write([col_value(side, name, i) for i in range(n)])
         elif name == "f":
             df.create_fixed_string(name, 3).data.write(np.array([col_value(side, name, i) for i in range(n)], dtype="S3"))
@@ -248,6 +318,8 @@ def build(e, df, side, case):
             df.create_timestamp(name).data.write(np.array([col_value(side, name, i) for i in range(n)], dtype="float64"))
         elif name == "flag":
             df.create_numeric(name, "bool").data.write(np.ones(n, dtype=bool))
+        else:
+            df.create_numeric(name, "int32").data.write(np.array([col_value(side, name, i) for i in range(n)], dtype="int32"))
 
 
 def dump(df):
@@ -383,10 +455,22 @@ def side_val(case, side, name, i):
 def check_spec(case, io, mode):
     if case.get("mal"):
         return None          # the property says nothing about rejected arguments (the correspondence compares the error)
+    names = expected_names(case)
+    dest = list(names.values())
+    if len(set(dest + RESERVED)) != len(dest) + len(RESERVED) and "err" in io:
+        # the destination names clash: the property grants no such frame, so a rejection is fine — provided it does not
+        # depend on the hints. A clash with a name merge reserves for its own fields must be the up-front ValueError of fix
+        # NC02b, not "already exists" on one path only (as found: '_left_map' raised with the ordered hints and succeeded
+        # without them, 'valid_l' the converse). A call that succeeds is checked like any other below.
+        if io["err"] != "value_error":
+            return f"merge raised {io['err']}: {io.get('msg', '')}"
+        if any(d in RESERVED for d in dest) and not str(io.get("msg", "")).startswith("merge would write more than one"):
+            return (f"a source field named like one of merge's own fields makes the outcome depend on the hints (NC02b): "
+                    f"hints={case['hints']} raised {io.get('msg', '')}")
+        return None
     if "err" in io:
         return f"merge raised {io['err']}: {io.get('msg', '')}"
     cols = io["cols"]
-    names = expected_names(case)
     missing = [v for v in names.values() if v not in cols]
     if missing:
         return f"destination lacks columns {missing} (has {sorted(cols)})"
@@ -411,6 +495,10 @@ def check_spec(case, io, mode):
 
 
 def match_finding(case, io, mode):
+    # NC02c: ordered path, an indexed-string entry longer than the streamed value buffer: the hinted call raises the clear
+    # ValueError of ordered_map_valid_indexed_stream (the hint-free call succeeds)
+    if long_entry_overflows(case) and io.get("err") == "value_error" and "does not fit the value buffer" in str(io.get("msg", "")):
+        return "NC02c"
     return None
 
 
@@ -429,7 +517,7 @@ def model_col(case, side, name, n):
         return {"e": 0, "v": list(ks)}
     if name == "k2":
         return {"e": 0, "v": [0] * n}
-    if name in ("s", "ronly"):
+    if name in ("s", "ronly") or name.startswith("big"):
         bs = [col_value(side, name, i).encode("utf-8") for i in range(n)]
         ix = [0]
         for x in bs:
@@ -552,7 +640,12 @@ def nontrivial(case, mo):
 def classify(case, mo):
     h = case["hints"]
     path = "ordered" if (h[0] and h[2] and case["how"] != "outer" and not case.get("compound")) else "unordered"
-    return [case["how"], path, "hints:" + "".join("T" if x else "-" for x in h), "cs:%s" % ("big" if case["cs"] >= 1 << 20 else case["cs"])]
+    tags = [case["how"], path, "hints:" + "".join("T" if x else "-" for x in h), "cs:%s" % ("big" if case["cs"] >= 1 << 20 else case["cs"])]
+    if case.get("extra"):
+        tags.append("extra:" + case["extra"][1])
+    if long_entry_overflows(case):
+        tags.append("NC02c")
+    return tags
 
 
 def select_for_mode(case, mode, tier):
